@@ -23,7 +23,9 @@ USERS = [('alice', 'pwalice'), ('bob', 'pwbob')]
 NAMES = ['a', 'b', '', 'café', 'q"uo\\te', 'with space', '中', 'A', 'x' * 40, 'a\tb', '{3}', 'NIL',
          # names whose bytes are not UTF-8 (kept as str through surrogateescape): the server may refuse them, or accept them and then keep them apart
          b'caf\xe9'.decode('utf-8', 'surrogateescape'), b'caf\xe8'.decode('utf-8', 'surrogateescape'), b'\xff'.decode('utf-8', 'surrogateescape'),
-         b'a\xc3'.decode('utf-8', 'surrogateescape')]
+         b'a\xc3'.decode('utf-8', 'surrogateescape'),
+         # control characters a literal carries but a quoted string must not: the listing has to stay readable
+         'old\rmac', 'two\r\nlines', 'x\ny']
 
 
 def nbytes(n):
